@@ -189,6 +189,7 @@ def specStep (sh : Shadow) (o : Proto.Op) : Except String Shadow := do
   | ["drop", a] =>
     if (find sh (nat a)).isSome then throw "environment: the client dropped a block that is still outstanding"
     else pure sh
+  | ["overloads", _] => pure sh
   | ["report", _] => pure sh
   | ["invalidate", _] => pure sh
   | ["setcur", "new", ai] => pure { sh with curNew := nat ai }
